@@ -462,6 +462,16 @@ def methods(ctx):
                     and "dr/build/" in x["file"]]
             file = cand[0]["file"] if len(cand) == 1 else None
             s = summarise(f, file)
+            hand = not (file or "").split("/")[-1].startswith("autogen")
+            if s["emits"] and not s["dedup"] and (s["problems"] or hand):
+                # hand-written methods (and anything not in one of the recognised statement shapes) are summarised by evaluation;
+                # the statement-shape reading is kept when the evaluation gives no single answer
+                from . import evalsum
+                try:
+                    s = evalsum.summarise(ctx, f, s)
+                except Anchor as ex:
+                    if s["problems"]:
+                        s["problems"] = s["problems"][:2] + ["evaluation: %s" % ex]
             s["where"] = "%s:%s Builder::%s" % (file, cand[0]["line"], f["name"]) if file else "Builder::%s" % f["name"]
             out.append(s)
         return out
